@@ -145,14 +145,21 @@ def plan_page(rnd, kind, rows, cols, encodings, quick, small):
 def caption_sessions(ctx, rnd, quick):
     """caption byte pairs: TLC random walks through the CcDisplay model (C08) + seeded printable pairs"""
     from checks import c08
-    g = tlc.run("Gen_CcDisplay", "Gen_CcDisplay_sim", timeout=600, collect_tr=True, heap="2g", simulate=1 if quick else 4, depth=16,
-                seed=ctx.seed, workers=1 if quick else 4, max_tr=6 if quick else 24)
+    # one behaviour per walk (weighted random walk, one successor per step); all workers of one TLC process draw the same random
+    # numbers, so distinct walks need workers=1 and simulate=n
+    nw = 6 if quick else 24
+    g = tlc.run("Gen_CcDisplay", "Gen_CcDisplay_sim", timeout=600, collect_tr=True, heap="2g", simulate=nw, depth=16,
+                seed=ctx.seed, workers=1, max_tr=nw)
+    if not g.tr:
+        raise tlc.ToolFailure("Gen_CcDisplay printed no caption walk")
     ctx.add_mc(g, "GEN CcDisplay walks (caption transmissions)")
     out = []
     for beh in g.tr:
         cmds = []
         chans = set()
         for st in beh:
+            if "act" not in st:
+                continue
             f, b1, b2 = c08.encode(st["act"])
             cmds.append("K %d %02x %02x" % (f, b1, b2))
             if st["act"]["a"] == "Ctrl":
